@@ -369,3 +369,198 @@ example : ∃ (env : Env) (p : RPat) (src : List Char) (toks : List Tok) (n : Na
   exact ⟨env, p, src, toks, n, hp, h1, h2⟩
 
 end Harper.C01
+
+/-! ## never hangs — UNCONDITIONALLY — and the iteration bound of `RepeatingPattern`, for the real leaves (w26)
+
+`matches_never_hangs`, `rep_terminates`, `rep_fuel_tight`, `runOnChunk_never_hangs`, `findAllMatches_never_hangs` of
+`Props/C01Pattern.lean` are about the kind-code model `Pat`. The same for `RPat`, the trees over the REAL leaf patterns: no
+hypothesis on the environment, the source, the tokens (spans may lie outside the text, be inverted, overlap, be out of order)
+or the tree. The only fuelled loop in `RPat.matcher` is `repGo` (`RepeatingPattern::matches`); every leaf and every other
+combinator is a structural recursion. -/
+namespace Harper.C01
+open Harper Harper.Chunks Harper.Rules Harper.Leaves
+open Harper.C12 (env0)
+
+/-- no real leaf pattern can hang: `Leaf.matcher` never returns `Panic.outOfFuel` (`WhitespacePattern` and `NominalPhrase` walk
+the slice once; `WithinEditDistance` runs the two bounded `for` loops of `edit_distance_min_alloc`; `SplitCompoundWord` a
+three-element `SequencePattern`; the rest look at one token) -/
+theorem leaf_never_hangs (env : Env) (l : Leaf) (src : List Char) (toks : List Tok) :
+    l.matcher env src toks ≠ .error .outOfFuel := leaf_nf env l src toks
+
+/-- **`Pattern::matches` of a tree over the real leaves never hangs** — every `env`, every tree, every source, every token
+list; the counterpart of `matches_never_hangs` (kind-code model). A `RepeatingPattern` loop iteration returns (child answered
+0), propagates the child's panic, panics in `&tokens[cursor..]` (child answered more than the slice holds), or shortens the slice
+by at least one token — so the `toks.length + 1` iterations `repPat` allows are never used up. -/
+theorem matches_never_hangs_real (env : Env) (p : RPat) (src : List Char) (toks : List Tok) :
+    p.matcher env src toks ≠ .error .outOfFuel := matcher_nf env p src toks
+
+/-- the same for `RepeatingPattern` around ANY child that does not itself hang — the child need not keep the contract -/
+theorem rep_never_hangs_any (inner : Matcher) (hi : ∀ src toks, inner src toks ≠ .error .outOfFuel) (req : Nat)
+    (src : List Char) (toks : List Tok) : repPat inner req src toks ≠ .error .outOfFuel := repPat_nf inner hi req src toks
+
+/-- non-vacuity of `rep_never_hangs_any`: children that break the contract meet its hypothesis, and the loop ends in the slice
+panic, not in a hang — a child that answers 5 on one token; a child that always answers 1 (the unfixed `Invert(any)` on the
+empty rest: two iterations consume the two tokens, the third panics) -/
+example : repPat (fun _ _ => .ok 5) 0 [] [⟨⟨0, 1⟩, .word⟩] = .error .sliceOOB ∧
+    repPat (fun _ _ => .ok 1) 0 [] [⟨⟨0, 1⟩, .word⟩, ⟨⟨1, 2⟩, .word⟩] = .error .sliceOOB := by decide
+
+/-- `matches_never_hangs_real` at work: a repetition of a leaf that answers 0 at once (`then_one_or_more(any word)` on a space);
+a repetition nested in a repetition (the inner one eats the three tokens, the outer one sees 0 on the empty rest and stops); a
+repetition of `Invert` (one token per round, 0 on the empty slice) -/
+example : (RPat.rep (.leaf (.kind .word false)) 0).matcher C12.env0 [' '] [⟨⟨0, 1⟩, .space 1⟩] = .ok 0 ∧
+    (RPat.rep (.rep (.leaf .any) 0) 0).matcher C12.env0 [] [⟨⟨0, 1⟩, .word⟩, ⟨⟨1, 2⟩, .space 1⟩, ⟨⟨2, 3⟩, .word⟩] = .ok 3 ∧
+    (RPat.rep (.invert (.leaf .whitespace)) 2).matcher C12.env0 [] [⟨⟨0, 1⟩, .word⟩, ⟨⟨1, 2⟩, .word⟩, ⟨⟨2, 3⟩, .word⟩] = .ok 3 := by
+  decide
+
+/-- … and on tokens that are NOT in the text (the span 7..9 of a one-character source; an inverted span): the leaf panics —
+with the slice / underflow panic, through two `RepeatingPattern`s — it does not hang -/
+example : (RPat.rep (.rep (.leaf (.exactWord ['a'])) 0) 0).matcher C12.env0 ['a'] [⟨⟨7, 9⟩, .word⟩] = .error .sliceOOB ∧
+    (RPat.rep (.seq (.cons (.leaf .any) (.cons (.leaf (.anyCap ['a'])) .nil))) 0).matcher C12.env0 ['a']
+      [⟨⟨0, 1⟩, .word⟩, ⟨⟨1, 0⟩, .word⟩] = .error .underflow := by decide
+
+/-! ### the iteration bound (`rep_terminates`, `rep_fuel_tight` for the real leaves) -/
+
+/-- **`RepeatingPattern`'s loop over a real tree needs at most `toks.length + 1` iterations**, and what it ends with is a match
+length inside the slice or the very panic the child raised on a suffix `toks[k..]` of the slice — never a panic of its own,
+never a hang. (`fuel` = iterations of the loop body; the child's contract is `matches_contract_real`, a theorem.) -/
+theorem rep_terminates_real (env : Env) (p : RPat) (req : Nat) (src : List Char) (toks : List Tok) (fuel : Nat)
+    (hf : toks.length < fuel) :
+    (∃ n, repGo (p.matcher env) req src fuel 0 0 toks = .ok n ∧ n ≤ toks.length) ∨
+    (∃ e k, repGo (p.matcher env) req src fuel 0 0 toks = .error e ∧ e ≠ .outOfFuel ∧ k ≤ toks.length ∧
+      p.matcher env src (toks.drop k) = .error e) := by
+  rcases repGo_outcome (p.matcher env) (matcher_mc env p) req src fuel 0 0 toks hf with ⟨n, h1, h2⟩ | ⟨e, k, h1, h2, h3⟩
+  · exact .inl ⟨n, h1, by omega⟩
+  · exact .inr ⟨e, k, h1, fun he => matcher_nf env p src _ (he ▸ h3), h2, h3⟩
+
+/-- the general form: ANY child that keeps the contract (`n ≤ toks.length` whenever it returns) -/
+theorem rep_terminates_any (inner : Matcher) (hc : ∀ src toks n, inner src toks = .ok n → n ≤ toks.length) (req : Nat)
+    (src : List Char) (toks : List Tok) (fuel : Nat) (hf : toks.length < fuel) :
+    (∃ n, repGo inner req src fuel 0 0 toks = .ok n ∧ n ≤ toks.length) ∨
+    (∃ e k, repGo inner req src fuel 0 0 toks = .error e ∧ k ≤ toks.length ∧ inner src (toks.drop k) = .error e) := by
+  rcases repGo_outcome inner hc req src fuel 0 0 toks hf with ⟨n, h1, h2⟩ | h
+  · exact .inl ⟨n, h1, by omega⟩
+  · exact .inr h
+
+/-- non-vacuity of `rep_terminates_any`: `kindAtom` keeps the contract (hypothesis `hc`), fuel 3 on two tokens -/
+example : (∃ n, repGo (kindAtom Kind.isWord) 0 [] 3 0 0 [⟨⟨0, 1⟩, .word⟩, ⟨⟨1, 2⟩, .word⟩] = .ok n ∧ n ≤ 2) ∨
+    (∃ e k, repGo (kindAtom Kind.isWord) 0 [] 3 0 0 [⟨⟨0, 1⟩, .word⟩, ⟨⟨1, 2⟩, .word⟩] = .error e ∧ k ≤ 2 ∧
+      kindAtom Kind.isWord [] (List.drop k [⟨⟨0, 1⟩, .word⟩, ⟨⟨1, 2⟩, .word⟩]) = .error e) :=
+  rep_terminates_any (kindAtom Kind.isWord) (tokAtom_mc fun _ t => t.kind.isWord) 0 [] _ 3 (by decide)
+example : repGo (kindAtom Kind.isWord) 0 [] 3 0 0 [⟨⟨0, 1⟩, .word⟩, ⟨⟨1, 2⟩, .word⟩] = .ok 2 := by decide
+
+/-- the bound at its smallest value, which is the fuel the model (`repPat`) runs the loop with: the statement is about
+`(RPat.rep p req).matcher` itself -/
+theorem rep_fuel_tight_real (env : Env) (p : RPat) (req : Nat) (src : List Char) (toks : List Tok) :
+    (∃ n, (RPat.rep p req).matcher env src toks = .ok n ∧ n ≤ toks.length) ∨
+    (∃ e k, (RPat.rep p req).matcher env src toks = .error e ∧ e ≠ .outOfFuel ∧ k ≤ toks.length ∧
+      p.matcher env src (toks.drop k) = .error e) := by
+  rw [RPat.matcher]
+  exact rep_terminates_real env p req src toks (toks.length + 1) (Nat.lt_succ_self _)
+
+/-- … and `toks.length` iterations do NOT suffice: `any` repeated over two tokens needs the third iteration to see the empty
+rest and return -/
+example : repGo ((RPat.leaf .any).matcher C12.env0) 0 [] 2 0 0 [⟨⟨0, 1⟩, .word⟩, ⟨⟨1, 2⟩, .word⟩] = .error .outOfFuel ∧
+    repGo ((RPat.leaf .any).matcher C12.env0) 0 [] 3 0 0 [⟨⟨0, 1⟩, .word⟩, ⟨⟨1, 2⟩, .word⟩] = .ok 2 := by decide
+
+/-- non-vacuity of `rep_terminates_real` (`hf` at `fuel = 9 = len + 1`), applied, and both disjuncts occur: on the in-text tokens
+of `We In  tact now.` the loop returns; with the out-of-text token of above the child's panic comes through (`k = 0`) -/
+example : (∃ n, repGo ((RPat.leaf .any).matcher env0) 3 srcIntact 9 0 0 toksIntact = .ok n ∧ n ≤ toksIntact.length) ∨
+    (∃ e k, repGo ((RPat.leaf .any).matcher env0) 3 srcIntact 9 0 0 toksIntact = .error e ∧ e ≠ .outOfFuel ∧ k ≤ toksIntact.length ∧
+      (RPat.leaf .any).matcher env0 srcIntact (toksIntact.drop k) = .error e) :=
+  rep_terminates_real env0 (.leaf .any) 3 srcIntact toksIntact 9 (by decide)
+example : repGo ((RPat.leaf .any).matcher env0) 3 srcIntact 9 0 0 toksIntact = .ok 8 ∧
+    repGo ((RPat.leaf (.exactWord ['a'])).matcher env0) 0 ['a'] 2 0 0 [⟨⟨7, 9⟩, .word⟩] = .error .sliceOOB ∧
+    (RPat.leaf (.exactWord ['a'])).matcher env0 ['a'] ([⟨⟨7, 9⟩, .word⟩].drop 0) = .error .sliceOOB := by decide
+
+/-- **fuel above `toks.length` is never touched**: any two such fuels give the same result — for ANY child (the loop itself
+refuses an answer longer than the slice). So the model's choice `toks.length + 1` loses nothing against the unbounded Rust `loop`. -/
+theorem rep_fuel_irrelevant (inner : Matcher) (req : Nat) (src : List Char) (toks : List Tok) (fuel fuel' : Nat)
+    (hf : toks.length < fuel) (hf' : toks.length < fuel') :
+    repGo inner req src fuel 0 0 toks = repGo inner req src fuel' 0 0 toks :=
+  repGo_fuel_irrelevant inner req src fuel fuel' 0 0 toks hf hf'
+
+/-- non-vacuity of `rep_fuel_irrelevant`: fuels 9 and 100 on eight tokens -/
+example : repGo ((RPat.leaf .any).matcher env0) 3 srcIntact 9 0 0 toksIntact =
+    repGo ((RPat.leaf .any).matcher env0) 3 srcIntact 100 0 0 toksIntact :=
+  rep_fuel_irrelevant _ 3 srcIntact toksIntact 9 100 (by decide) (by decide)
+
+/-- **the fuel actually consumed is output-sensitive**: a non-zero match length `n` is reached within `n + 1` iterations (every
+iteration but the last adds at least one token to the `n` matched) — for ANY child, whatever fuel the run that produced `n` had -/
+theorem rep_iterations_le_match (inner : Matcher) (req : Nat) (src : List Char) (toks : List Tok) (fuel n : Nat)
+    (h : repGo inner req src fuel 0 0 toks = .ok n) (hn : n ≠ 0) : repGo inner req src (n + 1) 0 0 toks = .ok n :=
+  repGo_fuel_by_result inner req src fuel 0 0 toks n h hn
+
+/-- non-vacuity of `rep_iterations_le_match`: whitespace-or-word pairs over `We In  tact now.`: 6 tokens in 3 rounds (fuel 4 ≤ 7
+would do); the bound `n + 1` is attained by `any` (one token per round) -/
+example : repGo ((RPat.seq (.cons (.leaf .any) (.cons (.leaf .whitespace) .nil))).matcher env0) 0 srcIntact 9 0 0 toksIntact = .ok 6 ∧
+    repGo ((RPat.seq (.cons (.leaf .any) (.cons (.leaf .whitespace) .nil))).matcher env0) 0 srcIntact 7 0 0 toksIntact = .ok 6 ∧
+    repGo ((RPat.seq (.cons (.leaf .any) (.cons (.leaf .whitespace) .nil))).matcher env0) 0 srcIntact 4 0 0 toksIntact = .ok 6 ∧
+    repGo ((RPat.leaf .any).matcher env0) 0 srcIntact 9 0 0 toksIntact = .ok 8 ∧
+    repGo ((RPat.leaf .any).matcher env0) 0 srcIntact 8 0 0 toksIntact = .error .outOfFuel := by decide
+
+/-! ### `run_on_chunk` -/
+
+/-- **`run_on_chunk` around any real tree cannot spin**: the cursor advances in every iteration (the model's recursion is the
+cursor; it has no fuel of its own), so a hang could only come from the pattern — `matches_never_hangs_real` — or from
+`match_to_lint`. The counterpart of `runOnChunk_never_hangs`; no hypothesis on source or tokens. -/
+theorem runOnChunk_never_hangs_real (env : Env) (p : RPat) (f : List Char → List Tok → Except Panic (List RuleLint))
+    (src : List Char) (hf : ∀ l, f src l ≠ .error .outOfFuel) (skip : Nat) (chunk : List Tok) :
+    runOnChunkGo (p.matcher env) f src skip chunk ≠ .error .outOfFuel :=
+  runOnChunkGo_nf _ (matcher_nf env p) f src hf chunk skip
+
+/-- … and around ANY pattern that does not hang itself -/
+theorem runOnChunk_never_hangs_any (m : Matcher) (hm : ∀ src toks, m src toks ≠ .error .outOfFuel)
+    (f : List Char → List Tok → Except Panic (List RuleLint)) (src : List Char) (hf : ∀ l, f src l ≠ .error .outOfFuel)
+    (skip : Nat) (chunk : List Tok) : runOnChunkGo m f src skip chunk ≠ .error .outOfFuel :=
+  runOnChunkGo_nf m hm f src hf chunk skip
+
+/-- `MapPhraseLinter` (all of `phrase_corrections.rs`, `closed_compounds.rs`): the whole linter, `iter_chunks` included, never
+hangs — whatever pattern, whatever document -/
+theorem ruleMapPhrase_never_hangs (env : Env) (p : RPat) (forms : List (List Char)) (src : List Char) (toks : List Tok) :
+    ruleMapPhrase env p forms src toks ≠ .error .outOfFuel :=
+  collectE_nf _ _ fun chunk _ => runOnChunk_never_hangs_real env p _ src (mapPhraseMatch_nf env forms src) 0 chunk
+
+/-- `ProperNounCapitalizationLinter`: the same (its `match_to_lint` runs the patterns a second time, `PatternMap::lookup`) -/
+theorem ruleProperNoun_never_hangs (env : Env) (rows : List PNRow) (src : List Char) (toks : List Tok) :
+    ruleProperNoun env rows src toks ≠ .error .outOfFuel :=
+  collectE_nf _ _ fun chunk _ => runOnChunk_never_hangs_real env _ _ src (properNounMatch_nf env rows src) 0 chunk
+
+/-- non-vacuity of `runOnChunk_never_hangs_real` / `_any`: `hf` holds of `MapPhraseLinter::match_to_lint`; the theorem applied
+to a tree with a nested repetition, on in-text tokens (a lint) and on a token outside the text (the leaf's panic, no hang) -/
+example : runOnChunkGo ((RPat.rep (.rep (.leaf (.kind .word false)) 0) 0).matcher env0) (mapPhraseMatch env0 [['x']]) srcIntact 0
+    toksIntact ≠ .error .outOfFuel :=
+  runOnChunk_never_hangs_real env0 _ _ srcIntact (mapPhraseMatch_nf env0 [['x']] srcIntact) 0 toksIntact
+example : runOnChunkGo ((RPat.rep (.rep (.leaf (.kind .word false)) 0) 0).matcher env0) (mapPhraseMatch env0 [['x']]) srcIntact 0
+      (toksIntact.take 3) = .ok [⟨⟨0, 2⟩, [.replaceWith ['X']], 13, 0⟩, ⟨⟨3, 5⟩, [.replaceWith ['X']], 13, 0⟩] ∧
+    runOnChunkGo ((RPat.rep (.leaf (.exactWord ['a'])) 0).matcher env0) (mapPhraseMatch env0 [['x']]) ['a'] 0
+      [⟨⟨0, 1⟩, .word⟩, ⟨⟨7, 9⟩, .word⟩] = .error .sliceOOB := by decide
+
+/-! ### `find_all_matches`, `condense_pattern` over real tokens -/
+
+/-- `find_all_matches` (document.rs; one `matches` per start index, then the overlap filter) with any real tree never hangs -/
+theorem findAllMatches_never_hangs_real (env : Env) (p : RPat) (src : List Char) (toks : List Tok) :
+    Harper.findAllMatches (p.matcher env) src toks ≠ .error .outOfFuel :=
+  findAllMatches_nf _ (matcher_nf env p) src toks
+
+/-- `condense_pattern` with any pattern that does not hang itself never hangs (its own loops are `for`s over the matches) -/
+theorem condensePattern_never_hangs (m : Matcher) (hm : ∀ src toks, m src toks ≠ .error .outOfFuel) (edit : Kind → Kind)
+    (src : List Char) (toks : List Tok) : condensePattern m edit src toks ≠ .error .outOfFuel :=
+  condensePattern_nf m hm edit src toks
+
+/-- hence the three pattern passes of `Document::parse` — `condense_contractions`, `condense_ellipsis` (a `RepeatingPattern`),
+`condense_latin` — never hang, on any token vector -/
+theorem condensePasses_never_hang (src : List Char) (toks : List Tok) :
+    condenseContractions src toks ≠ .error .outOfFuel ∧ condenseEllipsis src toks ≠ .error .outOfFuel ∧
+    condenseLatin src toks ≠ .error .outOfFuel :=
+  ⟨condensePattern_nf _ contractionPat_nf _ src toks, condensePattern_nf _ ellipsisPat_nf _ src toks,
+    condensePattern_nf _ latinPat_nf _ src toks⟩
+
+/-- non-vacuity of `condensePattern_never_hangs`: its hypothesis holds of `ellipsisPat` (a `repPat`), and the pass at work on
+`a...` with the three periods merged -/
+example : condensePattern ellipsisPat (fun _ => .punct .Ellipsis) ['a', '.', '.', '.'] [⟨⟨0, 1⟩, .word⟩, ⟨⟨1, 2⟩, .punct .Period⟩,
+    ⟨⟨2, 3⟩, .punct .Period⟩, ⟨⟨3, 4⟩, .punct .Period⟩] ≠ .error .outOfFuel :=
+  condensePattern_never_hangs ellipsisPat ellipsisPat_nf _ _ _
+example : condenseEllipsis ['a', '.', '.', '.'] [⟨⟨0, 1⟩, .word⟩, ⟨⟨1, 2⟩, .punct .Period⟩,
+    ⟨⟨2, 3⟩, .punct .Period⟩, ⟨⟨3, 4⟩, .punct .Period⟩] = .ok [⟨⟨0, 1⟩, .word⟩, ⟨⟨1, 4⟩, .punct .Ellipsis⟩] := by decide
+
+end Harper.C01
